@@ -321,17 +321,115 @@ Proof.
     apply app_eq_nil in E. destruct E as [E _]. contradiction.
 Qed.
 
+(* ---------- str.encode(): printing commutes with UTF-8 encoding, because all the punctuation is ASCII ---------- *)
+
+Definition encode_header (h : sig_header) : sig_header :=
+  {| sh_name := utf8 (sh_name h); sh_optional := sh_optional h; sh_value := option_map utf8 (sh_value h) |}.
+Definition encode_http (h : http_sig) : http_sig :=
+  {| hs_version := hs_version h; hs_headers := map encode_header (hs_headers h); hs_absent := map utf8 (hs_absent h);
+     hs_software := option_map utf8 (hs_software h) |}.
+Definition ascii_text (t : text) : Prop := Forall (fun c => 0 <= c < 128) t.
+
+(* a property of characters that holds of every byte >= 128 is preserved by encoding (for ANY integer code points:
+   a code point below 128 is its own encoding, and every byte of the encoding of a code point >= 128 is >= 128) *)
+Lemma utf8_Forall (P : Z -> Prop) t : (forall b, 128 <= b -> P b) -> Forall P t -> Forall P (utf8 t).
+Proof.
+  intros HP H. induction H as [|c t Hc Ht IH]; [constructor|].
+  rewrite utf8_cons. apply Forall_app. split; [|exact IH].
+  destruct (Z_lt_le_dec c 128) as [L|L].
+  - rewrite (enc_c_ascii c L). constructor; [exact Hc | constructor].
+  - eapply Forall_impl; [|exact (enc_c_high c L)]. intros a Ha. apply HP. exact Ha.
+Qed.
+
+Lemma utf8_nil t : utf8 t = [] -> t = [].
+Proof.
+  destruct t as [|c t]; [reflexivity|]. rewrite utf8_cons. intro H.
+  apply app_eq_nil in H. destruct H as [H _]. exfalso. exact (enc_c_nonempty _ H).
+Qed.
+
+Lemma utf8_join sep l : utf8 (join sep l) = join (utf8 sep) (map utf8 l).
+Proof.
+  induction l as [|x l IH]; [reflexivity|].
+  destruct l as [|y l]; [reflexivity|].
+  change (join sep (x :: y :: l)) with (x ++ sep ++ join sep (y :: l)).
+  rewrite !utf8_app, IH. reflexivity.
+Qed.
+
+Theorem utf8_ascii : forall t, ascii_text t -> utf8 t = t.
+Proof.
+  intros t H. induction H as [|c t Hc Ht IH]; [reflexivity|].
+  rewrite utf8_cons, IH, enc_c_ascii by lia. reflexivity.
+Qed.
+
+Lemma utf8_print_header h : utf8 (print_header h) = print_header (encode_header h).
+Proof.
+  destruct h as [name opt value]. unfold print_header, encode_header. cbn [sh_name sh_optional sh_value].
+  rewrite !utf8_app. destruct opt, value as [v|]; cbn [option_map]; rewrite ?utf8_app; reflexivity.
+Qed.
+
+Lemma utf8_print_headers hs :
+  utf8 (join [44] (map print_header hs)) = join [44] (map print_header (map encode_header hs)).
+Proof.
+  rewrite utf8_join, !map_map. change (utf8 [44]) with [44]. f_equal.
+  apply map_ext. intro a. apply utf8_print_header.
+Qed.
+
+Lemma plain_utf8 t : plain t -> plain (utf8 t).
+Proof. apply utf8_Forall. intros b Hb. lia. Qed.
+
+Lemma value_ok_utf8 t : value_ok t -> value_ok (utf8 t).
+Proof. apply utf8_Forall. intros b Hb. lia. Qed.
+
+Lemma lower_case_utf8 t : lower_case t -> lower_case (utf8 t).
+Proof. apply utf8_Forall. intros b Hb. lia. Qed.
+
+Lemma header_ok_encode h : header_ok h -> header_ok (encode_header h).
+Proof.
+  destruct h as [name opt value]. unfold header_ok, encode_header. cbn [sh_name sh_optional sh_value].
+  intros (Hne & Hp & Hq & Hv). repeat split.
+  - intro H. apply Hne. apply utf8_nil. exact H.
+  - apply plain_utf8. exact Hp.
+  - destruct name as [|c n]; [congruence|]. rewrite utf8_cons.
+    destruct (Z_lt_le_dec c 128) as [L|L].
+    + rewrite (enc_c_ascii c L). exact Hq.
+    + pose proof (enc_c_high c L) as Hh. destruct (enc_c c) as [|b bs] eqn:Eb; [exfalso; exact (enc_c_nonempty _ Eb)|].
+      inversion Hh as [|? ? Hb _]; subst. cbn [app]. lia.
+  - destruct value as [v|]; cbn [option_map]; [|exact I]. apply value_ok_utf8. exact Hv.
+Qed.
+
+Lemma parse_absent_utf8 (l : list text) : Forall (fun a => a <> [] /\ plain a /\ lower_case a) l ->
+  match join [44] l with [] => [] | a => map lower (split_on 44 (utf8 a)) end = map utf8 l.
+Proof.
+  intro H.
+  assert (H' : Forall (fun a => a <> [] /\ plain a /\ lower_case a) (map utf8 l)).
+  { apply Forall_map. eapply Forall_impl; [|exact H]. cbv beta. intros a (Hne & Hp & Hl).
+    split; [|split].
+    - intro E. apply Hne. apply utf8_nil. exact E.
+    - apply plain_utf8. exact Hp.
+    - apply lower_case_utf8. exact Hl. }
+  pose proof (parse_absent (map utf8 l) H') as P.
+  change [44] with (utf8 [44]) in P at 1. rewrite <- utf8_join in P.
+  destruct (join [44] l) as [|c r] eqn:E; [exact P|].
+  destruct (utf8 (c :: r)) as [|b bs] eqn:E2; [|exact P].
+  apply utf8_nil in E2. discriminate.
+Qed.
+
 (* ---------- the theorem ---------- *)
 
-(* C09: every HTTP signature within the grammar denotes exactly what its text denotes *)
-Theorem parse_print_http_sig : forall h, printable_http h -> parse_http_sig (print_http_sig h) = Ok h.
+(* C09: every HTTP signature within the grammar denotes exactly what its text denotes: the fields of the signature are texts of
+   code points (the signature text is a str), the fields of the parsed signature are their UTF-8 encodings (bytes).  No bound on the
+   code points is needed: below 128 a code point is its own encoding, and all bytes of any other are >= 128. *)
+Theorem parse_print_http_sig : forall h, printable_http h -> parse_http_sig (print_http_sig h) = Ok (encode_http h).
 Proof.
   intros [ver hs ab sw] (Hver & Hhs & Hab & Hsw). cbn [hs_version hs_headers hs_absent hs_software] in *.
-  unfold parse_http_sig, print_http_sig. cbn [hs_version hs_headers hs_absent hs_software].
+  unfold parse_http_sig, print_http_sig, encode_http. cbn [hs_version hs_headers hs_absent hs_software].
   change (str ":") with [58]. change (str ",") with [44].
   rewrite split_parts_4.
   - unfold part. cbn [nth].
-    rewrite (parse_print_headers hs Hhs). rewrite (parse_absent ab Hab).
+    rewrite utf8_print_headers.
+    rewrite (parse_print_headers (map encode_header hs))
+      by (apply Forall_map; eapply Forall_impl; [|exact Hhs]; intros a Ha; apply header_ok_encode; exact Ha).
+    rewrite (parse_absent_utf8 ab Hab).
     assert (Hv : parse_http_version (print_wild ver) = Ok ver)
       by (destruct Hver as [->|[->| ->]]; vm_compute; reflexivity).
     rewrite Hv. cbn [bind]. f_equal. f_equal.
@@ -344,4 +442,30 @@ Proof.
   - destruct sw as [s|]; [|reflexivity]. destruct Hsw as [_ Hs]. apply hs_mem_false. exact Hs.
 Qed.
 
+(* an all-ASCII signature is its own encoding *)
+Lemma encode_header_ascii x :
+  ascii_text (sh_name x) /\ match sh_value x with Some v => ascii_text v | None => True end -> encode_header x = x.
+Proof.
+  destruct x as [name opt value]. unfold encode_header. cbn [sh_name sh_optional sh_value]. intros [Hn Hv].
+  rewrite (utf8_ascii name Hn). destruct value as [v|]; cbn [option_map]; [|reflexivity].
+  rewrite (utf8_ascii v Hv). reflexivity.
+Qed.
+
+Theorem parse_print_http_sig_ascii : forall h, printable_http h ->
+  Forall (fun x => ascii_text (sh_name x) /\ match sh_value x with Some v => ascii_text v | None => True end) (hs_headers h) ->
+  Forall ascii_text (hs_absent h) -> match hs_software h with Some s => ascii_text s | None => True end ->
+  parse_http_sig (print_http_sig h) = Ok h.
+Proof.
+  intros h Hp Hhs Hab Hsw. rewrite (parse_print_http_sig h Hp). f_equal.
+  destruct h as [ver hs ab sw]. unfold encode_http. cbn [hs_version hs_headers hs_absent hs_software] in *.
+  f_equal.
+  - rewrite <- (map_id hs) at 2. apply map_ext_in. intros a Ha.
+    rewrite Forall_forall in Hhs. apply encode_header_ascii. apply Hhs. exact Ha.
+  - rewrite <- (map_id ab) at 2. apply map_ext_in. intros a Ha.
+    rewrite Forall_forall in Hab. apply utf8_ascii. apply Hab. exact Ha.
+  - destruct sw as [s|]; cbn [option_map]; [|reflexivity]. rewrite (utf8_ascii s Hsw). reflexivity.
+Qed.
+
 Print Assumptions parse_print_http_sig.
+Print Assumptions utf8_ascii.
+Print Assumptions parse_print_http_sig_ascii.
